@@ -58,7 +58,7 @@ CHECKS = {
             "Trusted: vendored oracle data (/verif/oracle, provenance inside), equality-atom string encoding, engine, solvers. Names no oracle lists are not compared.",
             "SMT queries with symbolic keys over the interpreted real tables (go/ssa symbolic execution, z3 + cvc5)"),
     "C13": (MC, "4 (C13)",
-            "Determinism: the real compiler is run twice per shape under opposite iteration orders of every map it ranges over and SMT decides term-wise equality of the instruction lists for all values. Side effects and races: a write monitor over everything reachable from the caller's policy (spare capacity, slices shared with a twin) and over all package state must stay empty on every path of Assemble, GetInfo and the text conversions; with private write sets the DRF argument gives race freedom and independence for any number of goroutines - interleavings are reduced away, not explored. Memory handed to a sync.Pool is covered by the same reduction: an access of the former owner after Put that conflicts with an access of the next owner after Get is reported (the two are unordered under another schedule). Text forms of symbolic flag/action words are equal under both map orders.",
+            "Determinism: the real compiler is run twice per shape under opposite iteration orders of every map it ranges over and SMT decides term-wise equality of the instruction lists for all values. Side effects and races: a write monitor over everything reachable from the caller's policy (spare capacity, slices shared with a twin) and over all package state must stay empty on every path of Assemble, GetInfo and the text conversions; with private write sets the DRF argument gives race freedom and independence for any number of goroutines - interleavings are reduced away, not explored. Memory handed to a sync.Pool is covered by the same reduction: an access of the former owner after Put that conflicts with an access of the next owner after Get is reported (the two are unordered under another schedule). Text forms of symbolic flag/action words are equal under both map orders, and equal before and after every conversion of two other symbolic words in the same process (a memo or buffer left behind by an earlier conversion must not show).",
             "Trusted: the engine's write monitor and map-order model; the DRF reduction (Go memory model). Native replay runs the compilations concurrently under the race detector, then 40 more times alternating on one processor (so that pooled objects change hands).",
             "SMT-based symbolic execution with map order as an input plus a write-set (non-interference) analysis (z3 + cvc5)"),
     "C14": (MC, "4 (C14)",
